@@ -55,9 +55,17 @@ class Fold:
         a = self.node.args
         names = [x.arg for x in a.args]
         defaults = dict(zip(names[len(names) - len(a.defaults):], a.defaults))
+        def lit(e):
+            # a literal, or a module-level name bound once to a literal (e.g. limit=FOLD_LIMIT)
+            if isinstance(e, ast.Name):
+                vals = [n.value for n in source.module("parser").tree.body
+                        if isinstance(n, ast.Assign) and any(isinstance(t, ast.Name) and t.id == e.id for t in n.targets)]
+                if len(vals) == 1:
+                    return ast.literal_eval(vals[0])
+            return ast.literal_eval(e)
         try:
-            self.limit = ast.literal_eval(defaults["limit"])
-            self.fold_sep = ast.literal_eval(defaults["fold_sep"])
+            self.limit = lit(defaults["limit"])
+            self.fold_sep = lit(defaults["fold_sep"])
         except Exception:
             raise extract.Outside("foldline defaults are not literals")
         body = source.strip_docstring(self.node.body)
@@ -320,6 +328,17 @@ def run(rep: common.Report):
             for k in ("P4.unfold_restores_line", "P5.contentlines_round_trip"):
                 if not any(o.oid.endswith(k) for o in rep.obligations):
                     rep.add(Obligation(f"{PID}.{k}", fn, "fstc", UNDECIDED, detail=f"outside the fstc fragment: {e}"))
+    # the link between foldline and what is written: Contentline.to_ical hands EVERY line to foldline (statement shape)
+    mod_p = source.module("parser")
+    node_t = mod_p.lookup("Contentline.to_ical")
+    body_t = [ast.unparse(x) for x in source.strip_docstring(node_t.body)] if node_t is not None else None
+    ok_t = body_t == ["return foldline(self).encode(DEFAULT_ENCODING)"]
+    rep.add(Obligation(f"{PID}.P0.every_content_line_is_written_through_foldline", "parser:Contentline.to_ical", "fin", PROVED if ok_t else UNDECIDED,
+                       detail="body is exactly `return foldline(self).encode(DEFAULT_ENCODING)` (default limit and separator)" if ok_t
+                       else f"body is {body_t!r}: outside the statement shape (the stand-in decides)",
+                       lines=source.lines_of(node_t) if node_t is not None else None))
+    if ok_t:
+        rep.functions.add("parser:Contentline.to_ical")
     # bounded stand-in on the real function: every alignment of every width with the boundary
     b = Bounded("C06.bnd.alignments", "parser:foldline / Contentline / Component.to_ical (real)",
                 "lines of length 60..160 built from a prefix of 1-octet characters and every sequence of <= 3 characters of widths 1-4, CR, "
@@ -346,8 +365,11 @@ def check_line(line):
     if any(not p.startswith(" ") for p in phys[1:]):
         msgs.append("continuation line does not start with a space")
     try:
-        for p in Contentline(line).to_ical().split(b"\r\n"):
+        emitted = Contentline(line).to_ical().split(b"\r\n")
+        for p in emitted:
             p.decode("utf-8")
+        if any(len(p) > 75 for p in emitted):
+            msgs.append(f"Contentline.to_ical emits a physical line of {max(len(p) for p in emitted)} octets")
     except UnicodeDecodeError:
         msgs.append("a physical line is not valid UTF-8 on its own")
     if uFOLD.sub("", out) != line:
@@ -375,7 +397,22 @@ def bounded(b, tier, seed):
         n += 1
         for m in check_line(line):
             fails.setdefault(m.split(" of ")[0], {"witness": {"line": line}, "detail": f"{line!r}: {m}"})
+    # few characters, many octets (a length test in characters is not a length test in octets)
+    for nch in range(15, 80):
+        for ch in ("\u00e9", "\u20ac", "\u4f1a", "\U0001F600"):
+            for head in ("S:", "SUMMARY;LANGUAGE=zh:"):
+                line = head + ch * nch
+                n += 1
+                for m in check_line(line):
+                    fails.setdefault(m.split(" of ")[0], {"witness": {"line": line}, "detail": f"{line!r}: {m}"})
     from icalendar import Event
+    for summary in ("\u4f1a" * 32, "\U0001F600" * 20, "\u00e9" * 60):
+        e = Event()
+        e.add("summary", summary)
+        for p in e.to_ical().split(b"\r\n"):
+            n += 1
+            if len(p) > 75:
+                fails.setdefault("component", {"witness": {"component": "event", "summary": summary}, "detail": f"an Event with SUMMARY {summary!r} is serialised with a {len(p)}-octet line"})
     e = Event()
     e.add("summary", "ä" * 100 + "\U0001F600" * 40)
     e.add("description", "x" * 200 + "\r" + "y" * 100)
